@@ -16,6 +16,7 @@ Inductive case :=
 | CBsp (i : bsp_in) (cfg : option (Z * Z * Z * Z)) (n : Z) (beh : option (Z * Z))
 | CBlrp (i : blrp_in) (n maxchunk : Z) (total : Z) (trig : option bool)
 | CLimits (opts : list limits_opt) (e : limits_env) (obs : list Z)
+| CEnvLimits (e : limits_env) (obs : list Z)      (* NewSpanLimits() read directly *)
 | CLogLimits (oc ol : option Z) (ec el : bytes) (obs : list Z)
 | CSampler (o : option sopt) (name arg : option bytes) (dec : list bool).
 
@@ -36,9 +37,10 @@ Definition tmo_matches (t : Z) (o : tobs) : bool :=
 
 (** Does an observation agree with a resolved configuration?  One flag per setting:
     (who, path, headers, compression, timeout). *)
-Definition agree (pr : proto) (host path : bytes) (h : hmap) (g : bool) (t : Z) (o : eobs) : list bool :=
+Definition agree (pr : proto) (insec : bool) (host path : bytes) (h : hmap) (g : bool) (t : Z) (o : eobs) : list bool :=
   let '(EObs who p hd gz tb) := o in
-  let w := bytes_eqb (who_of host) who in
+  (* the collectors speak plain text: a TLS client reaches nobody *)
+  let w := bytes_eqb (if insec then who_of host else []) who in
   if is_nil who then [w; true; true; true; true]
   else [w; match pr with PHttp => bytes_eqb path p | PGrpc => true end; hmap_eqb h hd; Bool.eqb g gz; tmo_matches t tb].
 
@@ -86,12 +88,12 @@ Definition verdict (ok known : bool) (k : N) : list N :=
 
 Definition check_exp (f : family) (pr : proto) (opts : list opt) (e : env) (o : eobs) : list N :=
   let m := exporter_config f pr opts e in
-  flag (all_true (agree pr (c_host m) (c_path m) (c_hdrs m) (c_gzip m) (c_tmo m) o)) V_MISMATCH ++
+  flag (all_true (agree pr (c_insec m) (c_host m) (c_path m) (c_hdrs m) (c_gzip m) (c_tmo m) o)) V_MISMATCH ++
   (if env_trimmed e then
      let '(EObs who p hd gz tb) := o in
-     match agree pr (exp_host pr opts e) (exp_path f opts e) (exp_hdrs opts e) (exp_gzip opts e) (exp_tmo opts e) o with
+     match agree pr (exp_insecure pr opts e) (exp_host pr opts e) (exp_path f opts e) (exp_hdrs opts e) (exp_gzip pr opts e) (exp_tmo opts e) o with
      | [w; pa; h; g; t] =>
-         verdict (w || negb (grpc_ok pr e)) false 0 ++
+         verdict (w || negb (grpc_ok pr e && schemes_ok opts e)) false 0 ++
          verdict (pa || negb (path_inputs_ok opts e))
                  (known3 f pr opts e p) 3 ++
          verdict h (known5 f opts e hd) 5 ++
@@ -119,7 +121,13 @@ Definition check_bsp (i : bsp_in) (cfg : option (Z * Z * Z * Z)) (n : Z) (beh : 
             (d =? dur_expected (b_opt_delay i) (b_env_delay i) 5000)%Z &&
             (x =? dur_expected (b_opt_export i) (b_env_export i) 30000)%Z &&
             match beh with Some bh => pairZ_eqb bh (bsp_behaviour b n) | None => true end
-        | None => true
+        | None =>
+            (* no resolved configuration to read (processor built inside a provider): the
+               behaviour is judged against the batch size the rules pin down *)
+            match beh, bsp_batch_expected i (bsp_queue_expected (b_opt_queue i) (b_env_queue i)) with
+            | Some bh, Some b => pairZ_eqb bh (bsp_behaviour b n)
+            | _, _ => true
+            end
         end) V_SPECFAIL ++
   flag (bsp_sizes_ok i (bo_queue m) (bo_batch m)) V_MODELSPEC.
 
@@ -156,6 +164,12 @@ Definition check_limits (opts : list limits_opt) (e : limits_env) (obs : list Z)
   flag (listZ_eqb (limits_behaviour (span_limits opts e)) obs) V_MISMATCH ++
   flag (listZ_eqb (limits_behaviour (limits_expected opts e)) obs) V_SPECFAIL.
 
+Definition limits_list (l : limits) : list Z :=
+  [lim_attr_len l; lim_attr_cnt l; lim_event_cnt l; lim_link_cnt l; lim_event_attr l; lim_link_attr l].
+Definition check_envlimits (e : limits_env) (obs : list Z) : list N :=
+  flag (listZ_eqb (limits_list (new_span_limits e)) obs) V_MISMATCH ++
+  flag (listZ_eqb (limits_list (limits_from_env e)) obs) V_SPECFAIL.
+
 (** attributes retained, value length of the first one (or -1); count limit 0 is not generated *)
 Definition loglimits_behaviour (cnt len : Z) : list Z :=
   let a := retained cnt lim_n in [a; if (a =? 0)%Z then (-1)%Z else retained len lim_len].
@@ -163,11 +177,11 @@ Definition check_loglimits (oc ol : option Z) (ec el : bytes) (obs : list Z) : l
   flag (listZ_eqb (loglimits_behaviour (log_limit oc ec 128) (log_limit ol el (-1))) obs) V_MISMATCH ++
   flag (listZ_eqb (loglimits_behaviour (log_limit_expected oc ec 128) (log_limit_expected ol el (-1))) obs) V_SPECFAIL.
 
-(** Sampling probes: parents (none, remote sampled, remote unsampled) x 16 positions
-    (2k+1)/32 of the 63-bit range. *)
+(** Sampling probes: parents (none, remote sampled, remote unsampled, local sampled, local
+    unsampled) x 16 positions (2k+1)/32 of the 63-bit range. *)
 Definition probe_x (k : Z) : Z := ((2 * k + 1) * 2 ^ 58)%Z.
 Definition probes : list (parent * Z) :=
-  flat_map (fun p => map (fun k => (p, probe_x (Z.of_nat k))) (seq 0 16)) [PNone; PSampled; PUnsampled].
+  flat_map (fun p => map (fun k => (p, probe_x (Z.of_nat k))) (seq 0 16)) [PNone; PSampled; PUnsampled; PSampled; PUnsampled].
 Definition bools_eqb := list_eqb Bool.eqb.
 Definition check_sampler (o : option sopt) (name arg : option bytes) (dec : list bool) : list N :=
   let s := provider_sampler o name arg in
@@ -180,6 +194,7 @@ Definition check_case (c : case) : list N :=
   | CBsp i cfg n beh => check_bsp i cfg n beh
   | CBlrp i n mc tot trig => check_blrp i n mc tot trig
   | CLimits opts e obs => check_limits opts e obs
+  | CEnvLimits e obs => check_envlimits e obs
   | CLogLimits oc ol ec el obs => check_loglimits oc ol ec el obs
   | CSampler o name arg dec => check_sampler o name arg dec
   end.
